@@ -74,8 +74,13 @@ def run_scenarios(ctx: Ctx, scs, res: Result, sigs, extra=None, at_quiescence='c
 
 def run(ctx: Ctx) -> Result:
     res = Result()
-    scs = [ctx.replay['replay']] if ctx.replay is not None else scenarios(ctx, res)
-    run_scenarios(ctx, scs, res, SIGS)
+    if ctx.replay is None or not ctx.replay['replay'].get('race'):
+        scs = [ctx.replay['replay']] if ctx.replay is not None else scenarios(ctx, res)
+        run_scenarios(ctx, scs, res, SIGS)
+    # inside one instance: the engine thread's update() against the distributed thread's on_distributed_update(), the second
+    # started at every lock boundary of the first — the outcome must be that of a serial order (harness/decider_race.py)
+    from harness import decider_race
+    decider_race.attach(ctx, res)
     return res
 
 
